@@ -1712,6 +1712,10 @@ def matmul(a, b):
         if a.ndim == 0 or b.ndim == 0:
             raise value_error('matmul: input operand does not have enough dimensions')
         return dot(a, b)
+    if b.ndim == 1:          # a vector on the right is a matrix with one column: the last axis of a is contracted with it
+        return tensordot(a, b, axes=([a.ndim - 1], [0]))
+    if a.ndim == 1:
+        return tensordot(a, b, axes=([0], [b.ndim - 2]))
     # stacked matrices: broadcast batch axes, contract last of a with second-to-last of b
     if not sz_eq(a.shape[-1], b.shape[-2]):
         raise value_error(f'matmul: mismatch in core dimension {a.shape} @ {b.shape}')
